@@ -1,2 +1,17 @@
-/- C09 — property theorems (being extended); the reader model these will be about: -/
-import E57.Model.Simple
+/-
+C09 — Reading untrusted bytes uses bounded time and memory per call.
+
+Main theorems (E57/Proofs/ReaderTotal.lean):
+ * `raw_count`, (C05) `simple_count`   an iterator yields at most `recordCount` values
+ * `advance_progress`, `refillCalls_le`, `refill_fuel_irrelevant`, `refill_terminates_with_progress`
+       every successful `advance` consumes >= 4 bytes; one `next` performs at most (logSize-offset)/4 + 2 advances
+ * `advance_bytes_consumed`, `advance_held`, `advance_queue_growth`, `advance_allZeroWidth`
+       bytes held <= bytes consumed <= file size; queue growth per call <= 8 x bytes held (+1 per call when all
+       records have zero width: no unbounded fill)
+ * `extractXml_too_long`, `Reader.open_spec`   XML <= 10 MiB, one 1024-byte page buffer
+ * `blobRead_spec`, `blobRead_exact_or_error`   a blob extraction consumes <= 16 + length bytes and returns exactly
+       `length` bytes or an error
+Wall-clock time and the real allocator are measured by the harness, not proved.
+-/
+import E57.Proofs.ReaderTotal
+import E57.Proofs.SimpleView
